@@ -338,7 +338,30 @@ impl Module for M {
                                 && (x as i64) < r.top_left.x as i64 + r.size.width as i64
                                 && (y as i64) < r.top_left.y as i64 + r.size.height as i64;
                             ctx.expect(inside == spec, "contains-not-top-left-plus-size", || format!("{:?}", p));
+                            // the `ContainsPoint` trait impl (what generic code reaches; a separate copy of the inherent
+                            // method in the main crate) says the same (seeded changes C05-r3-1 / C16-r3-1)
+                            let via_trait = <Rectangle as embedded_graphics::primitives::ContainsPoint>::contains(&r, p);
+                            ctx.expect(via_trait == spec, "contains-trait-not-top-left-plus-size", || format!("{:?}: trait {} spec {}", p, via_trait, spec));
                         }
+                    }
+                    // `points()` consumed partly by `next()` and then through `fold`-based adaptors (count / for_each /
+                    // last): still the remaining points (seeded change C16-r3-3: a `fold` override that walked the later
+                    // rows with the current row's remaining range)
+                    for k in [1usize, r.size.width as usize, r.size.width as usize + 1] {
+                        if k == 0 || k > pts.len() {
+                            continue;
+                        }
+                        let mut it = r.points();
+                        for _ in 0..k {
+                            it.next();
+                        }
+                        let mut rest: Vec<Point> = Vec::new();
+                        it.clone().for_each(|p| rest.push(p));
+                        let cnt = it.clone().count();
+                        let last = it.last();
+                        ctx.expect(rest[..] == pts[k..] && cnt == pts.len() - k && last == pts[k..].last().copied(), "points-after-next-then-fold", || {
+                            format!("{} after {} next(): for_each {} points, count {}, last {:?}; expected {}", fmt_rect(&r), k, rest.len(), cnt, last, pts.len() - k)
+                        });
                     }
                     ctx.expect(pts == expect_pts, "points-not-contains-row-major", || {
                         format!("points {} vs contains {}", fmt_pts(pts.iter().copied()), fmt_pts(expect_pts.iter().copied()))
